@@ -141,6 +141,7 @@ class Controller:
 
             def shutdown(self, wait=True, **kw):
                 self.closed = True
+                ctrl.ev("pool_exit", inflight=list(ctrl.inflight_ids()))
 
             def submit(self, fn, *a, **k):
                 fut = Future()
@@ -210,7 +211,7 @@ class Controller:
     def wait(self, running, return_when=ALL_COMPLETED, timeout=None):
         running = set(running)
         ids = {self.inflight["conc"].get(f) for f in running}
-        self.ev("wait", wkind="conc", return_when=return_when, running=sorted(x for x in ids if x), inflight=list(self.inflight_ids()), exited=list(self.exited), entered=list(self.entered),
+        self.ev("wait", wkind="conc", return_when=return_when, running=sorted(x for x in ids if x), inflight=list(self.inflight_ids()), inflight_kind=sorted(x for x in self.inflight["conc"].values() if x), exited=list(self.exited), entered=list(self.entered),
                 ready=self.world.ready_truth(self) if self.world else None, blocking=bool(running))
         if not running:
             return set(), set()
@@ -246,7 +247,7 @@ class Controller:
             async def wait(self, running, return_when=ALL_COMPLETED, timeout=None):
                 running = set(running)
                 ids = [ctrl.task_node.get(t) for t in running]
-                ctrl.ev("wait", wkind="async", return_when=return_when, running=sorted(x for x in ids if x), inflight=list(ctrl.inflight_ids()), exited=list(ctrl.exited), entered=list(ctrl.entered),
+                ctrl.ev("wait", wkind="async", return_when=return_when, running=sorted(x for x in ids if x), inflight=list(ctrl.inflight_ids()), inflight_kind=sorted(x for x in ctrl.inflight["async"].values() if x), exited=list(ctrl.exited), entered=list(ctrl.entered),
                         ready=ctrl.world.ready_truth(ctrl) if ctrl.world else None, blocking=bool(running))
                 if not running:
                     return set(), set()
